@@ -292,8 +292,47 @@ def sqrt_registered(x):
     return v
 
 
+COSINE_SYM = [False]   # C13: cosine distances between (concrete, placeholder) arm feature vectors are symbolic
+
+
+def _vec_id(v):
+    return '_'.join(('%g' % float(x)).replace('-', 'm').replace('.', 'p') for x in v)
+
+
+def cosine_name(a, b):
+    ia, ib = sorted([_vec_id(a), _vec_id(b)])
+    return 'cos_%s__%s' % (ia, ib)
+
+
+def cosine_sym(XA, XB):
+    """one arbitrary distance in [0, 2] per unordered pair of distinct non-zero vectors (a superset of the realisable
+    cosine matrices); NaN when a vector is all zeros, 0 for identical vectors"""
+    XA = _np.asarray(XA, dtype=float)
+    XB = _np.asarray(XB, dtype=float)
+    out = _np.empty((XA.shape[0], XB.shape[0]), dtype=object)
+    c = cur()
+    memo = c.scratch.setdefault('cos', {})
+    for i in range(XA.shape[0]):
+        for j in range(XB.shape[0]):
+            a, b = XA[i], XB[j]
+            if not a.any() or not b.any():
+                out[i, j] = float('nan')
+            elif (a == b).all():
+                out[i, j] = 0.0
+            else:
+                n = cosine_name(a, b)
+                if n not in memo:
+                    v = c.fresh(n, 'Real')
+                    c.fact(z3.And(v.e >= 0, v.e <= 2))
+                    memo[n] = v
+                out[i, j] = memo[n]
+    return out
+
+
 def cdist_sym(XA, XB, metric='euclidean', **kw):
     from scipy.spatial.distance import cdist as real_cdist
+    if metric == 'cosine' and COSINE_SYM[0] and not (isym(XA) or isym(XB)):
+        return cosine_sym(XA, XB)
     if not (isym(XA) or isym(XB)):
         return real_cdist(_np.asarray(XA, dtype=float), _np.asarray(XB, dtype=float), metric=metric, **kw)
     XA = _np.asarray(XA, dtype=object)
